@@ -31,6 +31,9 @@ class CodecHooks(Hooks):
         if name in ("datetime.datetime.fromtimestamp", "datetime.fromtimestamp"):
             d = fresh("dt", "fromts")
             st.assume(dt_ts(d.t) == ops.zreal(args[0]))
+            from pyvc.values import dt_off
+            if kwargs.get("tz") is not None:
+                st.assume(dt_off(d.t) == 0)
             return [("val", d, st)]
         return None
 
